@@ -173,7 +173,9 @@ Fixpoint exec (r : regex) (k : cont) (i : N) (p : option char) (rest : str) (c :
           then k i p rest c else None
       end
   | RWordB neg =>
-      if xorb neg (xorb (is_word p) (is_word (hd_error rest))) then k i p rest c else None
+      (* sre: neither \b nor \B matches anywhere in an empty subject *)
+      if (match p, rest with None, [] => false | _, _ => true end) && xorb neg (xorb (is_word p) (is_word (hd_error rest)))
+      then k i p rest c else None
   end.
 
 Definition kfinal : cont := fun j _ _ c => Some (j, c).
